@@ -68,6 +68,17 @@ CLAIMED.update({
          "forced Publish/Subscribe overlaps via hook parks + exactly-once multiset check over recorded deliveries at quiescence", "DESIGN.md §4 C11"),
 })
 
+CLAIMED.update({
+ "C06": ("fault_enumeration",
+         "All 360 cells of: message parked at one of 6 points of its path (inside the subscriber decorator, received-not-dispatched, dispatched-not-started, inside the handler, before publishing, before settlement) x {1,2,8} concurrent Close callers x 5 subscriber kinds (scripted, emits one more message from Close(), ignores the context, GoChannel buffer 0/4) x CloseTimeout {1 h, 30 ms with the handler held longer} x {handleClose parked until both of its select branches are ready, not parked}; plus random routers closed at a random moment (also through the Run context). Every Close caller samples the pipeline right after Close returned nil; Close/Run returning is decided by the quiescence detector.",
+         "Exhaustive over the stated crash-point grid; the random part samples schedules; 30 ms cells are judged only by what they must not do.",
+         "crash-point enumeration via hook parks + sampled-state assertions at Close return + quiescence detector", "DESIGN.md §4 C06"),
+ "C17": ("exploration",
+         "Forwarder (+forwarder.Publisher), FanIn, FanOut and Requeuer between a scripted redelivering source and a scripted failing destination: random messages, prior retries counters (absent, 0, 41, garbage, huge), malformed envelopes, AckWhenCannotUnwrap, destination failure plans (error, context.Canceled, panic); every destination call is attributed to a consumed message and compared by value, with the consumed message's settlement sampled inside the call.",
+         "FanOut's internal GoChannel cannot be scripted to fail; only valid UTF-8 goes through the JSON envelope.",
+         "conservation/attribution oracle over source-settlement and destination-call logs + quiescence detector", "DESIGN.md §4 C17"),
+})
+
 NOT_YET = {}
 
 def hook_commits():
